@@ -49,6 +49,7 @@ REQUIRED = {
     "component_views": 400,
     "invariants_checked": 20000,
     "appends_of_collections": 100,
+    "inplace_kinds_seen": 12,
 }
 SENT = 31337.25
 
@@ -325,41 +326,91 @@ def run_history(rng, res: ShardResult, hist_no: int):
                 register_result(r)
             elif op == "inplace":
                 h = world.handles[int(rng.integers(len(world.handles)))]
-                if np.iscomplexobj(h.obj.data) and False:
-                    continue
                 snap = {id(x): x.obj._data_full.copy() for x in world.handles}
-                choice = int(rng.integers(4))
                 obj = h.obj
                 ident = id(obj)
-                if choice == 0:
+                nd = grid.num_axes
+                dim = grid.dim
+                old_valid = np.array(obj.data, copy=True)
+                tensor = isinstance(obj, pde.Tensor2Field)
+                single = not isinstance(obj, pde.FieldCollection)
+                choices = ["+=", "*=", "-= field", "/=", "**=", "apply(out=self)"]
+                if tensor:
+                    choices += ["transpose(inplace)", "symmetrize(inplace)", "convert anti-symmetric (inplace)", "convert traceless (inplace)", "symmetrize traceless (inplace)"] * 2
+                if single and not np.iscomplexobj(obj.data):
+                    choices += ["smooth(out=self)", "insert"]
+                choice = str(rng.choice(choices))
+                judge_valid = True
+                T = lambda v: np.swapaxes(v, 0, 1)  # noqa: E731
+                eye = np.eye(dim).reshape((dim, dim) + (1,) * nd)
+                if choice == "+=":
                     obj += 0.5
-                elif choice == 1:
+                    new_valid = old_valid + 0.5
+                elif choice == "*=":
                     obj *= 2.0
-                elif choice == 2:
+                    new_valid = old_valid * 2.0
+                elif choice == "-= field":
                     obj -= obj.copy() * 0.25
-                else:
+                    new_valid = old_valid - old_valid * 0.25
+                elif choice == "/=":
                     obj /= 4.0
+                    new_valid = old_valid / 4.0
+                elif choice == "**=":
+                    obj **= 2
+                    new_valid = old_valid**2
+                elif choice == "apply(out=self)":
+                    ret = obj.apply(lambda a: a * a + 1, out=obj)
+                    new_valid = old_valid * old_valid + 1
+                    if ret is not obj:
+                        fail("apply(out=self) returned a different object")
+                elif choice == "transpose(inplace)":
+                    ret = obj.transpose(inplace=True) if rng.random() < 0.5 else obj.convert("transposed", inplace=True)
+                    new_valid = T(old_valid)
+                    if ret is not obj:
+                        fail("transpose(inplace=True) returned a different object")
+                elif choice == "symmetrize(inplace)":
+                    obj.symmetrize(inplace=True)
+                    new_valid = (old_valid + T(old_valid)) / 2
+                elif choice == "convert anti-symmetric (inplace)":
+                    obj.convert("anti-symmetric", inplace=True)
+                    new_valid = (old_valid - T(old_valid)) / 2
+                elif choice == "convert traceless (inplace)":
+                    obj.convert("traceless", inplace=True)
+                    new_valid = old_valid - np.trace(old_valid, axis1=0, axis2=1) / dim * eye
+                elif choice == "symmetrize traceless (inplace)":
+                    obj.symmetrize(make_traceless=True, inplace=True)
+                    sym = (old_valid + T(old_valid)) / 2
+                    new_valid = sym - np.trace(sym, axis1=0, axis2=1) / dim * eye
+                elif choice == "smooth(out=self)":
+                    obj.smooth(0.7, out=obj)
+                    new_valid, judge_valid = None, False
+                else:
+                    lo = np.array([b[0] for b in grid.axes_bounds])
+                    hi = np.array([b[1] for b in grid.axes_bounds])
+                    obj.insert(lo + (hi - lo) * rng.uniform(0.3, 0.7, size=nd), 1.5)
+                    new_valid, judge_valid = None, False
                 log.append(("in-place", choice, describe(h)))
                 res.count("inplace_ops_checked")
+                res.seen("inplace_kinds_seen", choice)
                 if id(obj) != ident:
                     fail("in-place operation returned a different object")
-                nd = grid.num_axes
-                expect_valid = {0: lambda v: v + 0.5, 1: lambda v: v * 2.0, 2: lambda v: v - v * 0.25, 3: lambda v: v / 4.0}[choice]
+                if judge_valid:
+                    new_flat = np.asarray(new_valid).reshape((len(h.comps),) + tuple(grid.shape))
+                valid = (slice(1, -1),) * nd
                 for x in world.handles:
                     was, now = snap[id(x)], x.obj._data_full
                     exp = was.copy()
                     if x.buffer == h.buffer:
-                        shared = [c for c in x.comps if c in h.comps]
-                        for c in shared:
+                        for c in (c for c in x.comps if c in h.comps):
                             kk = x.comps.index(c)
                             xt = x.obj.data.shape[: x.obj.data.ndim - nd]
                             ci = np.unravel_index(kk, xt) if xt else ()
-                            sl = ci + (slice(1, -1),) * nd
-                            exp[sl] = expect_valid(was[sl])
-                    if not np.allclose(now, exp, rtol=1e-14, atol=0, equal_nan=True):
-                        bad = np.argwhere(~np.isclose(now, exp, rtol=1e-14, atol=0, equal_nan=True))[0]
+                            sl = tuple(ci) + valid
+                            exp[sl] = new_flat[h.comps.index(c)] if judge_valid else now[sl]
+                    if not np.allclose(now, exp, rtol=1e-13, atol=1e-300, equal_nan=True):
+                        bad = np.argwhere(~np.isclose(now, exp, rtol=1e-13, atol=1e-300, equal_nan=True))[0]
                         ghost = any(b == 0 or b == s - 1 for b, s in zip(bad[-nd:], now.shape[-nd:]))
-                        fail(f"in-place operation on {describe(h)}: {describe(x)} changed in a {'ghost cell' if ghost else 'valid cell it must not change (or failed to change)'} at {tuple(map(int, bad))}")
+                        fail(f"in-place operation {choice} on {describe(h)}: {describe(x)} changed in a {'ghost cell' if ghost else 'valid cell it must not change (or failed to change)'} at {tuple(map(int, bad))}")
                         break
             elif op == "assign":
                 h = world.handles[int(rng.integers(len(world.handles)))]
